@@ -438,7 +438,7 @@ pub fn run(cfg: &Cfg, rep: &mut Rep) {
     let mut i = 0usize;
     for k in 0..400i64 {
         i += 1;
-        if i % n != sh {
+        if i % n != sh || cfg.fuzz {
             continue;
         }
         let y = 1600 + k * 2 + (k % 3);
@@ -490,11 +490,13 @@ pub fn run(cfg: &Cfg, rep: &mut Rep) {
             check_out_of_range_text(rep, &format!("{:02}:{:02}:{:02} {:03}/{:04}", h, mi, sc, doy, y), Some("%H:%M:%S %j/%Y"), what);
         }
     }
-    single_edit_lattice(rep, sh, n);
+    if !cfg.fuzz {
+        single_edit_lattice(rep, sh, n);
+    }
     // second 60 in text form: accepted only at 23:59 of a day on which a leap second was inserted (C08's partition)
     let tab = crate::model::leap::table();
     for y in 1960..=2030i64 {
-        if (y as usize) % n != sh {
+        if (y as usize) % n != sh || cfg.fuzz {
             continue;
         }
         for (m, d) in [(6u32, 30u32), (12, 31), (3, 31), (9, 30), (6, 29), (1, 1)] {
@@ -525,10 +527,11 @@ pub fn run(cfg: &Cfg, rep: &mut Rep) {
     }
     let nrand = cfg.budget(2_400_000);
     let mut fmts: Vec<String> = DOC_FORMATS.iter().map(|s| s.to_string()).collect();
-    for _ in 0..200 {
+    for _ in 0..if cfg.fuzz { 2 } else { 200 } {
         fmts.push(gen_format(&mut r));
     }
     for k in 0..nrand {
+        let k = cfg.k(k, &mut r);
         let fmt_str = if r.chance(1, 3) { gen_format(&mut r) } else { r.pick(&fmts).clone() };
         let (base, cls): (String, &str) = match k % 8 {
             0 | 1 => (gen_iso(&mut r), "str/valid-iso"),
